@@ -36,7 +36,7 @@ M3_MENU = [
 
 def bound(tier):
     n = 24 if tier == 'quick' else 64
-    return f'CT: totals 1..{n} (all counts, 9 buffer settings); M3: 2 ceilometers x 2 stamps' + (' and x 3 stamps' if tier != 'quick' else '')
+    return f'CT: totals 1..{n} (all counts, 9 buffer settings); M3: 2 ceilometers x 2 stamps' + (' and x 3 stamps over a 5-entry sub-menu' if tier != 'quick' else '')
 
 
 def cases(tier):
@@ -46,9 +46,9 @@ def cases(tier):
         out.append({'fam': 'CT', 'total': total, 'n_ceilos': 1})
     for total in ((2, 4, 7, 12, 16, 21) if tier == 'quick' else range(2, 41)):
         out.append({'fam': 'CT', 'total': total, 'n_ceilos': 2})
-    shapes = [(2, 2)] if tier == 'quick' else [(2, 2), (2, 3)]
-    for (C, T) in shapes:
-        for cells in itertools.product(range(len(M3_MENU)), repeat=C * T):
+    shapes = [(2, 2, range(len(M3_MENU)))] if tier == 'quick' else [(2, 2, range(len(M3_MENU))), (2, 3, (0, 1, 2, 3, 4))]
+    for (C, T, menu) in shapes:
+        for cells in itertools.product(menu, repeat=C * T):
             if all(M3_MENU[c] is None for c in cells) or cells[T:] < cells[:T]:
                 continue
             out.append({'fam': 'M3', 'shape': [C, T], 'cells': list(cells)})
